@@ -42,13 +42,25 @@ def strip_lean_comments(s):
     s = re.sub(r'/-.*?-/', '', s, flags=re.S)
     return re.sub(r'--[^\n]*', '', s)
 
+def prop_modules(pid):
+    """Props/<pid>.lean plus Props/<pid>_*.lean (same property, further components)"""
+    import glob
+    d = os.path.join(LEAN, 'QuinnModel', 'Props')
+    mods = [pid] if os.path.exists(os.path.join(d, f'{pid}.lean')) else []
+    mods += sorted(os.path.basename(f)[:-5] for f in glob.glob(os.path.join(d, f'{pid}_*.lean')))
+    return mods
+
 def theorem_names(pid):
-    src = strip_lean_comments(open(os.path.join(LEAN, 'QuinnModel', 'Props', f'{pid}.lean')).read())
-    return re.findall(r'^\s*theorem\s+([A-Za-z0-9_\.\']+)', src, flags=re.M)
+    """qualified as <module>.<theorem> (namespace QM.Props.<module>)"""
+    out = []
+    for m in prop_modules(pid):
+        src = strip_lean_comments(open(os.path.join(LEAN, 'QuinnModel', 'Props', f'{m}.lean')).read())
+        out += [f'{m}.{n}' for n in re.findall(r'^\s*theorem\s+([A-Za-z0-9_\.\']+)', src, flags=re.M)]
+    return out
 
 def imported_files(pid):
     """transitive closure of QuinnModel imports of Props/<pid>.lean"""
-    seen, todo = set(), [f'QuinnModel.Props.{pid}']
+    seen, todo = set(), [f'QuinnModel.Props.{m}' for m in prop_modules(pid)]
     while todo:
         m = todo.pop()
         if m in seen:
@@ -71,7 +83,7 @@ def step_translate(res):
 
 def step_lake(pid, res):
     with Lock('build.lock'):
-        rc, out = sh(['lake', 'build', f'QuinnModel.Props.{pid}', 'driver'], cwd=LEAN)
+        rc, out = sh(['lake', 'build'] + [f'QuinnModel.Props.{m}' for m in prop_modules(pid)] + ['driver'], cwd=LEAN)
     res['lake_rc'] = rc
     if rc != 0:
         errs = re.findall(r'error: ([^\n]+)', out)
@@ -91,10 +103,10 @@ def step_audit(pid, res):
     os.makedirs(os.path.join(CACHE, 'audit'), exist_ok=True)
     f = os.path.join(CACHE, 'audit', f'Audit_{pid}.lean')
     with open(f, 'w') as fh:
-        fh.write(f'import QuinnModel.Props.{pid}\n' + ''.join(f'#print axioms QM.Props.{pid}.{n}\n' for n in names))
+        fh.write(''.join(f'import QuinnModel.Props.{m}\n' for m in prop_modules(pid)) + ''.join(f'#print axioms QM.Props.{n}\n' for n in names))
     rc, out = sh(['lake', 'env', 'lean', f], cwd=LEAN)
     axioms = {}
-    for m in re.finditer(r"'QM\.Props\.%s\.([^']+)' (does not depend on any axioms|depends on axioms: \[([^\]]*)\])" % pid, out):
+    for m in re.finditer(r"'QM\.Props\.([^']+)' (does not depend on any axioms|depends on axioms: \[([^\]]*)\])", out):
         axioms[m.group(1)] = set(a.strip() for a in (m.group(3) or '').replace('\n', ' ').split(',') if a.strip())
     discharged = 0
     for n in names:
@@ -279,10 +291,11 @@ def main():
         for p in step_audit(pid, res):
             broken.append(('proof-break', p))
         if tier == 'thorough':
-            rc, out = sh(['lake', 'env', 'leanchecker', f'QuinnModel.Props.{pid}'], cwd=LEAN)
-            res['leanchecker_rc'] = rc
-            if rc != 0:
-                broken.append(('proof-break', f'leanchecker: {out[-300:]}'))
+            for m in prop_modules(pid):
+                rc, out = sh(['lake', 'env', 'leanchecker', f'QuinnModel.Props.{m}'], cwd=LEAN)
+                res['leanchecker_rc'] = rc
+                if rc != 0:
+                    broken.append(('proof-break', f'leanchecker {m}: {out[-300:]}'))
     else:
         res['obligations'] = len(theorem_names(pid)); res['discharged'] = 0; res['theorems'] = theorem_names(pid)
     # 3. harness
@@ -357,12 +370,12 @@ def main():
     samples = []
     for c, s in stats.items():
         samples += [f'[{c}] ' + x for x in s.get('samples', [])[:2]]
-    samples += [f'theorem QM.Props.{pid}.{n}' for n in res.get('theorems', [])]
+    samples += [f'theorem QM.Props.{n}' for n in res.get('theorems', [])]
     ev = dict(
         property_id=pid, tier=tier, seed=seed, level='proof',
         coverage=dict(
             obligations=res.get('obligations', 0), discharged=res.get('discharged', 0),
-            checker_cmd=f'cd /verif/lean && lake build QuinnModel.Props.{pid} && lake env lean .cache/audit/Audit_{pid}.lean (#print axioms)' + (' && lake env leanchecker' if tier == 'thorough' else ''),
+            checker_cmd=f'cd /verif/lean && lake build ' + ' '.join(f'QuinnModel.Props.{m}' for m in prop_modules(pid)) + f' && lake env lean /verif/.cache/audit/Audit_{pid}.lean (#print axioms of every theorem)' + (' && lake env leanchecker' if tier == 'thorough' else ''),
             trusted_base=P.TRUSTED,
             theorems=res.get('theorems', []), axioms_used=res.get('axioms_used', []),
             t1_anchors_regenerated=res.get('t1_anchors', 0),
